@@ -211,7 +211,42 @@ class RepInnerTask(Task):
         print(self.x)  # noqa: T201
 
 
-REP_OLD_CLASSES = [RepOldTask, RepSameOld, RepOldCfg]
+class RepOut(Config):
+    __xpmid__ = "verif.rep.out"
+    k: Param[int] = 0
+
+
+class RepNewProd(Task):
+    """Replacement producer: submit() returns another configuration (marked as output of the task)"""
+
+    __xpmid__ = "verif.rep.prod"
+    x: Param[int]
+
+    def task_outputs(self, dep) -> RepOut:
+        return dep(RepOut(k=self.x))
+
+    def execute(self):
+        print(self.x)  # noqa: T201
+
+
+class RepOldProd(RepNewProd):
+    """(same last component as its replacement: the job file names do not change)"""
+
+    __xpmid__ = "verif.rep.old.prod"
+
+
+class RepConsumer(Task):
+    """Holds the *output* of a producer: the producer's class only occurs behind the task link of that output"""
+
+    __xpmid__ = "verif.rep.consumer"
+    src: Param[RepOut]
+    hs: Param[List[RepOut]] = []
+
+    def execute(self):
+        print(self.src.k)  # noqa: T201
+
+
+REP_OLD_CLASSES = [RepOldTask, RepSameOld, RepOldCfg, RepOldProd]
 
 
 def rep_deprecate_all():
